@@ -208,7 +208,9 @@ func (c *Ctx) genC11(i int, risky bool) c11File {
 		w("package p2\n")
 		f.pkg = "p2"
 	}
-	imps := []string{`"fmt"`, `str "strings"`, `. "math"`, `_ "embed"`, `"context"`, `"io"`, `"fmt"`, `"github.com/stackus/goht"`}
+	// the same path may be imported under an alias, dot or blank name AND plainly: both lines are kept
+	imps := []string{`"fmt"`, `str "strings"`, `. "math"`, `_ "embed"`, `"context"`, `"io"`, `"fmt"`, `"github.com/stackus/goht"`,
+		`"strings"`, `"math"`, `"embed"`, `"io/fs"`, `f "fmt"`, `"fmt" // formatted I/O`, `ctx "context"`}
 	r.Shuffle(len(imps), func(a, b int) { imps[a], imps[b] = imps[b], imps[a] })
 	imps = imps[:r.Intn(len(imps)+1)]
 	seen := map[string]bool{`"context"`: true, `"io"`: true, `"github.com/stackus/goht"`: true}
